@@ -1326,6 +1326,7 @@ bus_service_list_queued_owners (BusService *service,
 #include <stdlib.h>
 
 void bus_verif_registry_state (BusRegistry *registry, FILE *out);
+const char *bus_verif_connection_name (DBusConnection *connection);
 
 void
 bus_verif_registry_state (BusRegistry *registry,
@@ -1354,7 +1355,7 @@ bus_verif_registry_state (BusRegistry *registry,
         {
           BusOwner *owner = link->data;
           DBusList *other;
-          const char *cname = bus_connection_get_name (owner->conn);
+          const char *cname = bus_verif_connection_name (owner->conn);
 
           for (other = _dbus_list_get_next_link (&service->owners, link);
                other != NULL;
@@ -1374,7 +1375,7 @@ bus_verif_registry_state (BusRegistry *registry,
             }
 
           if (out != NULL)
-            fprintf (out, " %s/%d/%d", cname ? cname : "?",
+            fprintf (out, " %s/%d/%d", cname,
                      (int) owner->allow_replacement, (int) owner->do_not_queue);
         }
 
